@@ -51,13 +51,23 @@ struct Files {
     names: Vec<String>,
     orig: Vec<String>,
     formatted: Vec<String>,
+    /// stale `.bk` / `.tmp` siblings left by an earlier run
+    stale: bool,
 }
+
+const STALE_BK: &str = "// stale backup from an earlier run\n";
+const STALE_TMP: &str = "// stale temporary file\n";
 
 fn setup(dir: &Path, f: &Files) {
     let _ = std::fs::remove_dir_all(dir);
     std::fs::create_dir_all(dir).unwrap();
     for (n, c) in f.names.iter().zip(f.orig.iter()) {
         std::fs::write(dir.join(n), c).unwrap();
+        if f.stale {
+            let stem = n.trim_end_matches(".rs");
+            std::fs::write(dir.join(format!("{stem}.bk")), STALE_BK).unwrap();
+            std::fs::write(dir.join(format!("{stem}.tmp")), STALE_TMP).unwrap();
+        }
     }
 }
 
@@ -145,7 +155,7 @@ impl Property for C20 {
         }
     }
     fn rule(&self) -> &'static str {
-        "generated sets of 1..3 source files (unformatted, already formatted, comment-only; the rewritten file first/middle/last), run by the real binary with --backup under strace; for every k = 1.. until the run completes untouched, the run is repeated on a fresh copy (i) killed with SIGKILL on entry to its k-th file-system syscall touching F / F.tmp / F.bk and (ii) with exactly that syscall failing with EIO; oracle after each: F or F.bk holds the complete original, F (if present) is exactly the original or exactly the formatted text, in (ii) rustfmt exits with status 1; after the clean run F = formatted, F.bk = original, unchanged files have no .bk; each injected run is one evaluation; non-trivial = a crash point strictly after the first and before the last file-system effect of a rewrite; distinct by (case, k, fault kind)"
+        "generated sets of 1..3 source files (unformatted, already formatted, comment-only; the rewritten file first/middle/last; in one case of four with stale .bk / .tmp siblings from an earlier run), run by the real binary with --backup under strace; for every k = 1.. until the run completes untouched, the run is repeated on a fresh copy (i) killed with SIGKILL on entry to its k-th file-system syscall touching F / F.tmp / F.bk and (ii) with exactly that syscall failing with EIO; oracle after each: F or F.bk holds the complete original, F (if present) is exactly the original or exactly the formatted text, in (ii) rustfmt exits with status 1; after the clean run F = formatted, F.bk = original, unchanged files have no .bk; each injected run is one evaluation; non-trivial = a crash point strictly after the first and before the last file-system effect of a rewrite; distinct by (case, k, fault kind)"
     }
     fn assumptions(&self) -> Vec<&'static str> {
         vec!["crash = the process disappears on entry to a syscall (SIGKILL); the kernel's own atomicity of rename(2) and the durability of completed writes are trusted", "strace -P selects the syscalls that touch the case's files by path or by descriptor"]
@@ -157,10 +167,10 @@ impl Property for C20 {
             let body = *c.pick(BODIES);
             files.push(json!({"name": format!("{}.rs", ["a", "b", "c"][i]), "content": body}));
         }
-        json!({"files": files})
+        json!({"files": files, "stale": c.chance(1, 4)})
     }
     fn run(&self, case: &Value, r: &RunCtx) -> Outcome {
-        let mut f = Files { names: vec![], orig: vec![], formatted: vec![] };
+        let mut f = Files { names: vec![], orig: vec![], formatted: vec![], stale: case["stale"].as_bool().unwrap_or(false) };
         for x in case["files"].as_array().into_iter().flatten() {
             let content = x["content"].as_str().unwrap_or("").to_owned();
             let fmt = format_text(&content, &vec![]);
@@ -207,10 +217,16 @@ impl Property for C20 {
                 if bk.map(|b| b.as_slice()) != Some(f.orig[i].as_bytes()) {
                     return Outcome::fail("clean-run-backup", format!("after a successful run {stem}.bk does not hold the original")).nontrivial(true);
                 }
+            } else if f.stale {
+                // an unchanged file: the stale sibling is none of this run's business
+                if bk.map(|b| b.as_slice()) != Some(STALE_BK.as_bytes()) {
+                    return Outcome::fail("backup-of-unchanged-file", format!("{stem}.bk was touched although {} was not changed", f.names[i])).nontrivial(true);
+                }
             } else if bk.is_some() {
                 return Outcome::fail("backup-of-unchanged-file", format!("{stem}.bk exists although {} was not changed", f.names[i])).nontrivial(true);
             }
-            if snap.contains_key(&format!("{stem}.tmp")) {
+            // (a stale .tmp of an unchanged file stays; one of a rewritten file is consumed)
+            if snap.contains_key(&format!("{stem}.tmp")) && !(f.stale && !rewritten.contains(&i)) {
                 return Outcome::fail("leftover-tmp", format!("{stem}.tmp left behind by a successful run")).nontrivial(true);
             }
         }
